@@ -282,12 +282,17 @@ def clauses(tier, seed):
       Clause('numeric:every linear Grid operation: A_fast P == P A_real over fast options', 'numeric', fns, run_linear, replay=replay_linear, group='jax-a', heavy=True),
       Clause('static+numeric:dry and shallow-water tendencies: degree<=3 and equal on the degree-3 lattice', 'numeric', fns, run_tendencies, group='jax-b', heavy=True),
       Clause('numeric:10-step trajectories equal (sampled states)', 'numeric', fns, run_trajectories, group='jax-c', heavy=True),
-  ]
+  ] + _pyvc_clauses()
+
+
+def _pyvc_clauses():
+  from contracts import fourier_contracts
+  return [c for c in fourier_contracts.clauses() if 'conjugate' in c.name]
 
 
 MANIFEST = {
-    'engine': 'jxa',
-    'technique': 'contract-based: intertwining matrix identities on complete bases; polynomial degree proved on the jaxpr + unisolvent degree-3 lattice for nonlinear tendencies; options enumerated',
+    'engine': 'pyvc+jxa',
+    'technique': 'contract-based deductive: the longitude derivatives of the two coefficient layouts are proved conjugate under the re-indexing R for all wavenumber counts (pyvc, from the real source); intertwining matrix identities on complete bases; polynomial degree proved on the jaxpr + unisolvent degree-3 lattice for nonlinear tendencies; options enumerated',
     'text': ('other: complete over fields/states at each configuration (linearity / degree proved statically, then complete bases / unisolvent lattice); '
              'bounded over grids and Fast option combinations; trajectories sampled. The symbolic-size index clauses (bijection R, mask conjugacy for all sizes) are covered at enumerated sizes only.'),
     'note': 'trusted: A1/A2, jxa degree rules, the lattice unisolvence theorem for total-degree polynomials.',
